@@ -56,6 +56,14 @@ type stackCase struct {
 	Late       []int      `json:"late"`    // nodes that call KeyGen LateMs after the others (the start-up barrier, spec/Barrier.tla)
 	LateMs     int        `json:"late_ms"`
 	Signers    []int      `json:"signers"` // orchestrated signing: the nodes that call Sign (default: all; must be threshold+1 of them)
+	// every context is cancelled at a protocol point instead of a time: when node CancelNode's back end emits (CancelEvent "send") or is
+	// handed (CancelEvent "recv") its CancelK-th message (from inside that call); afterwards everybody is silent
+	CancelNode  int    `json:"cancel_node"`
+	CancelEvent string `json:"cancel_event"`
+	CancelK     int    `json:"cancel_k"`
+	// a transport that blocks: every Send towards StallPeer blocks until the run is over (a peer that stopped reading); deliveries
+	// then run in one goroutine per link, like the connection handlers of a real transport
+	StallPeer int `json:"stall_peer"`
 }
 
 type stackJob struct {
@@ -81,17 +89,32 @@ type stackRun struct {
 	parties map[int]tss.MpcParty
 	inited  map[int]bool
 	early   int                      // protocol messages that arrived before the receiver had registered the session
+	evCount   map[[2]int]int         // (node, 0 = send / 1 = recv) -> back-end events so far
+	cancelAll func()
+	release   chan struct{}          // closed at the end of the run: blocked Sends return
+	workers   map[[2]int]chan *tss.IncMessage
+	closed    bool
 	direct  map[int]tss.KeyGenerator // mode "direct": the back ends wired without orchestrator, synchroniser and reliable broadcast
 }
 
 func (r *stackRun) log(o obj) {
 	r.mu.Lock()
-	o["t"] = r.t
-	r.lines = append(r.lines, o)
+	if !r.closed {
+		o["t"] = r.t
+		r.lines = append(r.lines, o)
+	}
 	r.mu.Unlock()
 }
 
 func (r *stackRun) send(from int, msgType uint8, topic []byte, data []byte, to ...uint16) {
+	if r.c.StallPeer != 0 && from != r.c.StallPeer {
+		for _, d := range to {
+			if int(d) == r.c.StallPeer {
+				<-r.release // the peer stopped reading: the transport blocks
+				return
+			}
+		}
+	}
 	r.mu.Lock()
 	defer r.mu.Unlock()
 	for _, d := range to {
@@ -167,6 +190,7 @@ func (g *recGen) Init(parties []uint16, threshold int, sendMsg func(msg []byte, 
 	g.inner.Init(parties, threshold, func(msg []byte, isBroadcast bool, to uint16) {
 		g.r.log(obj{"e": "bsend", "node": g.node, "kind": kindOf(msg), "bc": isBroadcast, "to": int(to)})
 		sendMsg(msg, isBroadcast, to)
+		g.r.protocolPoint(g.node, 0)
 	})
 }
 func (g *recGen) OnMsg(b []byte, from uint16, broadcast bool) {
@@ -180,13 +204,67 @@ func (g *recGen) OnMsg(b []byte, from uint16, broadcast bool) {
 	}
 	g.r.log(obj{"e": "onmsg", "node": g.node, "kind": kindOf(b), "from": int(from), "bc": broadcast, "h": h})
 	g.inner.OnMsg(b, from, broadcast)
+	g.r.protocolPoint(g.node, 1)
+}
+
+// deliver hands a message to its receiver: inline (the scheduler's order is the delivery order), or, when the transport of the run
+// can block, through one goroutine per link -- like the connection handlers of a real transport, so that a handler stuck in a
+// blocked Send holds up its own connection only
+func (r *stackRun) deliver(m *netMsg) {
+	if r.c.StallPeer == 0 {
+		r.parties[m.to].HandleMessage(m.m)
+		return
+	}
+	if m.to == r.c.StallPeer {
+		return
+	}
+	k := [2]int{m.from, m.to}
+	r.mu.Lock()
+	if r.workers == nil {
+		r.workers = map[[2]int]chan *tss.IncMessage{}
+	}
+	ch, ok := r.workers[k]
+	if !ok {
+		ch = make(chan *tss.IncMessage, 1<<14)
+		r.workers[k] = ch
+		party := r.parties[m.to]
+		go func() {
+			for x := range ch {
+				party.HandleMessage(x)
+			}
+		}()
+	}
+	r.mu.Unlock()
+	select {
+	case ch <- m.m:
+	default:
+	}
+}
+
+// protocolPoint: the node's back end has just emitted (kind 0) / been handed (kind 1) a message; cancels every context at the
+// configured point
+func (r *stackRun) protocolPoint(node, kind int) {
+	c := r.c
+	if c.CancelNode != node || (c.CancelEvent == "send") != (kind == 0) {
+		return
+	}
+	r.mu.Lock()
+	r.evCount[[2]int{node, kind}]++
+	hit := r.evCount[[2]int{node, kind}] == c.CancelK
+	f := r.cancelAll
+	r.mu.Unlock()
+	if hit && f != nil {
+		f()
+	}
 }
 func (g *recGen) KeyGen(ctx context.Context) ([]byte, error) { return g.inner.KeyGen(ctx) }
 
 func stackExec(t int, c stackCase) []obj {
 	threshold.SyncInterval = 2 * time.Millisecond
 	rng := rand.New(rand.NewSource(c.Seed))
-	r := &stackRun{c: c, t: t, links: map[[2]int][]netMsg{}, sentBy: map[int]int{}, parties: map[int]tss.MpcParty{}, inited: map[int]bool{}}
+	r := &stackRun{c: c, t: t, links: map[[2]int][]netMsg{}, sentBy: map[int]int{}, parties: map[int]tss.MpcParty{}, inited: map[int]bool{},
+		evCount: map[[2]int]int{}, release: make(chan struct{})}
+	defer close(r.release)
 	r.lines = append(r.lines, obj{"t": t, "e": "reset", "cfg": c.Cfg, "scheme": c.Scheme, "mode": c.Mode, "n": c.N, "th": c.T, "ids": c.IDs, "seed": c.Seed,
 		"policy": c.Policy, "fault": c.Fault, "byz": c.Byz != nil, "nsigners": len(c.Signers)})
 	if c.Byz != nil {
@@ -195,6 +273,13 @@ func stackExec(t int, c stackCase) []obj {
 	}
 	if c.Cancel > 0 {
 		r.lines[0]["cancel"] = c.Cancel
+	}
+	if c.CancelNode != 0 {
+		r.lines[0]["cancel"] = 1
+		r.lines[0]["cancel_at"] = fmt.Sprintf("%s %d of node %d", c.CancelEvent, c.CancelK, c.CancelNode)
+	}
+	if c.StallPeer != 0 {
+		r.lines[0]["stall"] = c.StallPeer
 	}
 	ids := append([]int(nil), c.IDs...)
 	sort.Ints(ids)
@@ -276,10 +361,23 @@ func stackExec(t int, c stackCase) []obj {
 	results := make(chan kgres, len(ids))
 	var cancels []context.CancelFunc
 	start := time.Now()
+	ctxs := map[int]context.Context{}
+	for _, id := range ids {
+		ctx, cancel := context.WithTimeout(context.Background(), deadline)
+		ctxs[id] = ctx
+		cancels = append(cancels, cancel)
+	}
+	kgCancels := append([]context.CancelFunc(nil), cancels...)
+	r.mu.Lock()
+	r.cancelAll = func() {
+		for _, cf := range kgCancels {
+			cf()
+		}
+	}
+	r.mu.Unlock()
 	for _, id := range ids {
 		id := id
-		ctx, cancel := context.WithTimeout(context.Background(), deadline)
-		cancels = append(cancels, cancel)
+		ctx := ctxs[id]
 		late := false
 		for _, x := range c.Late {
 			late = late || x == id
@@ -382,7 +480,7 @@ func stackExec(t int, c stackCase) []obj {
 					g.OnMsg(m.m.Data, uint16(m.from), bc)
 				}
 			} else {
-				r.parties[m.to].HandleMessage(m.m)
+				r.deliver(m)
 			}
 		} else {
 			select {
@@ -515,7 +613,11 @@ func stackExec(t int, c stackCase) []obj {
 	}
 	r.mu.Lock()
 	defer r.mu.Unlock()
-	return append(r.lines, obj{"t": t, "e": "end", "elapsed_ms": int(elapsed / time.Millisecond), "messages": r.total, "early": r.early})
+	// goroutines of calls that have returned may still be logging: the record of the run is closed under the lock
+	r.mu.Lock()
+	defer r.mu.Unlock()
+	r.closed = true
+	return append(append([]obj(nil), r.lines...), obj{"t": t, "e": "end", "elapsed_ms": int(elapsed / time.Millisecond), "messages": r.total, "early": r.early})
 }
 
 // the public part of the stored data (threshold key and per-party keys), hex of a digest to keep lines short
